@@ -198,13 +198,14 @@ RenPosting(p) ==
         s3 == IF Len(p.amt) = 0 THEN s2 ELSE RenAmount(Sp(s2, p.gap), p.amt[1], "amount")
         s4 == IF Len(p.cost) = 0 THEN s3
               ELSE RenAmount(Sp(Lit(Sp(s3, 1), IF p.cost[1].total THEN "@@" ELSE "@", "operator"), 1), p.cost[1].a, "costamount")
+        \* a balance assertion may follow the account directly (no amount): then two or more blanks separate them
         s5 == IF Len(p.asrt) = 0 THEN s4
-              ELSE RenAmount(Sp(Lit(Sp(s4, 1), IF p.asrt[1].strict THEN "==" ELSE "=", "operator"), 1), p.asrt[1].a, "assertamount")
+              ELSE RenAmount(Sp(Lit(Sp(s4, IF Len(p.amt) = 0 THEN p.gap ELSE 1), IF p.asrt[1].strict THEN "==" ELSE "=", "operator"), 1), p.asrt[1].a, "assertamount")
         s6 == IF Len(p.cmt) = 0 THEN s5 ELSE RenComment(Sp(s5, 2), p.cmt[1])
     IN s6
 
 PostingOK(p) ==
-    /\ Len(p.amt) = 0 => (Len(p.cost) = 0 /\ Len(p.asrt) = 0)
+    /\ Len(p.amt) = 0 => Len(p.cost) = 0              \* a cost needs an amount; an assertion does not
     /\ Len(p.amt) = 1 => AmountOK(p.amt[1])
     /\ Len(p.cost) = 1 => (AmountOK(p.cost[1].a) /\ ~p.cost[1].a.neg /\ ~p.cost[1].a.plus)
     /\ Len(p.asrt) = 1 => AmountOK(p.asrt[1].a)
